@@ -73,46 +73,3 @@ pub proof fn lemma_nne_mono(cs: Seq<LinearConstraint>, j: int, k: int)
 }
 // the domain entry of a slack / surplus / split variable: non-negative, no further bound
 pub open spec fn nn_unbounded(t: VariableType) -> bool { t matches VariableType::NonNegativeReal(lo, hi) && fv(lo) == Ext::Fin(0real) && fv(hi) == Ext::PosInf }
-// ----- the split of free variables: appended column pairs -----
-// row c is row c0 (width n) followed, for j < k, by the pair (c0[f[j]], -c0[f[j]])
-pub open spec fn split_row(c0: Seq<F64>, c: Seq<F64>, f: Seq<usize>, n: int, k: int) -> bool {
-    &&& c.len() == n + 2 * k
-    &&& forall|j: int| 0 <= j < n ==> #[trigger] c[j] == c0[j]
-    &&& forall|j: int| 0 <= j < k ==> c[n + 2 * j] == c0[#[trigger] f[j] as int] && fv(c[n + 2 * j + 1]) == Ext::Fin(-rv(c0[f[j] as int]))
-}
-// what the appended pairs add to the row's value: sum over j < k of c0[f[j]] * (z[n + 2j] - z[n + 2j + 1])
-pub open spec fn split_sum(c0: Seq<F64>, f: Seq<usize>, z: Seq<real>, n: int, k: int) -> real
-    decreases k,
-{
-    if k <= 0 { 0real } else { split_sum(c0, f, z, n, k - 1) + rv(c0[f[k - 1] as int]) * (z[n + 2 * (k - 1)] - z[n + 2 * (k - 1) + 1]) }
-}
-pub proof fn lemma_split_row(c0: Seq<F64>, c: Seq<F64>, f: Seq<usize>, n: int, k: int, z: Seq<real>)
-    requires split_row(c0, c, f, n, k), fin_seq(c0), c0.len() == n, 0 <= k <= f.len(), z.len() >= n + 2 * k,
-        forall|j: int| 0 <= j < f.len() ==> (#[trigger] f[j]) < n,
-    ensures pdot(c, z) == pdot(c0, z) + split_sum(c0, f, z, n, k),
-    decreases k,
-{
-    if k == 0 {
-        lemma_pdot_ext(c0, c, z);
-    } else {
-        let c1 = c.drop_last();
-        let c2 = c1.drop_last();
-        assert(split_row(c0, c2, f, n, k - 1)) by {
-            assert forall|j: int| 0 <= j < k - 1 implies c2[n + 2 * j] == c0[#[trigger] f[j] as int] && fv(c2[n + 2 * j + 1]) == Ext::Fin(-rv(c0[f[j] as int])) by {
-                assert(c2[n + 2 * j] == c[n + 2 * j]); assert(c2[n + 2 * j + 1] == c[n + 2 * j + 1]);
-            }
-        }
-        lemma_split_row(c0, c2, f, n, k - 1, z);
-        let a = rv(c0[f[k - 1] as int]);
-        assert(fv(c0[f[k - 1] as int]) is Fin);
-        assert(c.last() == c[n + 2 * (k - 1) + 1]);
-        assert(c1.last() == c[n + 2 * (k - 1)]);
-        assert(rv(c.last()) == -a);
-        assert(rv(c1.last()) == a);
-        let z1 = z[n + 2 * (k - 1)];
-        let z2 = z[n + 2 * (k - 1) + 1];
-        assert(a * z1 + (-a) * z2 == a * (z1 - z2)) by (nonlinear_arith);
-        assert(pdot(c1, z) == pdot(c2, z) + rv(c1.last()) * z[c1.len() - 1]);
-        assert(pdot(c, z) == pdot(c1, z) + rv(c.last()) * z[c.len() - 1]);
-    }
-}
